@@ -42,16 +42,23 @@ def call_split(m):
     return e
 
 
-def call_seg(rows, thr, mode, scale=1):
+def call_seg(rows, thr, mode, scale=1, dup=False):
+    """dup: the list of tested features names the FIRST feature twice (columns 0 and 1 of rows are equal), each entry with
+    its own threshold - the list is positional, nothing requires the names to be distinct"""
     from tracklib.algo.segmentation import segmentation, MODE_COMPARAISON_AND, MODE_COMPARAISON_OR
     import tk
     n = len(rows)
     k = len(thr)
     tr = tk.mk_track(list(range(n)))
     names = ["f%d" % j for j in range(k)]
+    if dup:
+        assert k >= 2 and all(r[0] == r[1] for r in rows)
+        names[1] = names[0]
     # the numbers are carried by python floats, python ints, or numpy scalars (features filled from numpy arrays), by turns
     carrier = (n + k + len(thr) + (0 if mode == "and" else 1) + sum(int(t) for t in thr)) % 4
     for j, nm in enumerate(names):
+        if dup and j == 1:
+            continue
         vals = [fval(r[j], scale) for r in rows]
         if carrier == 1:
             import numpy as np
@@ -73,6 +80,8 @@ def call_seg(rows, thr, mode, scale=1):
     # aliasing variant: the marker is written over one of the tested features (binarisation in place); every observation's
     # marker follows from the values on entry
     outn = "out"
+    if dup:
+        e["hist"] = "first feature tested twice"
     if h == 3 and not e["pre"]:
         outn = names[-1]
         e["hist"] = "output = last tested feature"
@@ -107,6 +116,11 @@ def job_seg(args):
     for thr in itertools.product([0, 1, 2], repeat=k):
         for mode in ("and", "or"):
             out.append(call_seg(rows, thr, mode))
+    if k >= 2:
+        rows_d = [(r[0],) + tuple(r) for r in itertools.product([0, 1, 2, NANV, PINF, NINF], repeat=k - 1)]
+        for thr in itertools.product([0, 1, 2], repeat=k):
+            for mode in ("and", "or"):
+                out.append(call_seg(rows_d, thr, mode, dup=True))
     return out
 
 
